@@ -512,6 +512,13 @@ def generate(rng, tier, index):
         and rng.random() < 0.6
         and all((t_.get("extends") or "p").startswith("p")
                 for c_ in plan["components"].values() for t_ in c_["types"]))
+    # the application schema and its types file are data of a package and
+    # the schema is loaded by its package: URL -- the relative src reference
+    # names the sibling resource in the package
+    plan["schema_in_package"] = bool(plan["src_import"]
+                                     and rng.random() < 0.4)
+    if plan["schema_in_package"]:
+        plan["packages"]["zcsim_psch"] = {"is_package": True}
     # loads
     pkgs = sorted(plan["components"])
     for _ in range(rng.randint(1, 4)):
@@ -713,6 +720,11 @@ def execute(plan):
                        for t in c["types"]}
     if plan.get("src_import"):
         pkgfiles[TYPES_URL] = types_xml(plan)
+    if plan.get("schema_in_package"):
+        pkgfiles[pkg_file_key("zcsim_psch", "c12.xml")] = xml
+        pkgfiles[pkg_file_key("zcsim_psch", "c12-types.xml")] = \
+            types_xml(plan)
+        del pkgfiles[TYPES_URL]
     with SimWorld(packages=plan["packages"]) as w:
         w.store = dict(pkgfiles)
         w.begin_op("load-schema")
@@ -721,8 +733,13 @@ def execute(plan):
             reg = ZConfig.datatypes.Registry()
             reg.register("zc-int", int)
             sloader = ZConfig.loader.SchemaLoader(reg)
-        so = ops.schema_outcome(lambda: ops.load_schema_text(
-            xml, SCHEMA_URL, sloader))
+        if plan.get("schema_in_package"):
+            sl_ = sloader or ZConfig.loader.SchemaLoader()
+            so = ops.schema_outcome(
+                lambda: sl_.loadURL("package:zcsim_psch:c12.xml"))
+        else:
+            so = ops.schema_outcome(lambda: ops.load_schema_text(
+                xml, SCHEMA_URL, sloader))
         w.end_op("ok" if so["ok"] else so["cls"])
         schema_expected = True
         try:
